@@ -5,8 +5,10 @@
 
    * a function body is [q_body k ins vals]: a function of the values of the inputs it reads
      ([q_ins k], frozen within a revision: [q_in cur i]) and of the values its callees
-     RETURNED, collected in the executing frame ([QExec rest acc]); insert_memo stores exactly
-     that ([R2_publish]), with changed_at backdated when the value equals the old memo's
+     RETURNED, collected in the executing frame ([QExec rest acc mc]); insert_memo stores exactly
+     that ([R2_publish]); its changed_at is the maximum of the stamps of the inputs read and of
+     the changed_at the callees returned (ActiveQuery), backdated to the old memo's changed_at
+     when the function compares values ([q_eq]) and the value is equal
      (execute.rs backdate_if_appropriate);
    * a request returns the pair (value, changed_at) it read from a memo verified in the
      current revision; the caller's frame consumes it ([deliver]): an executing caller appends
@@ -33,6 +35,7 @@ Record prog2 := mkQ {
   q_ins : key -> list ikey;
   q_deps : key -> list key;
   q_body : key -> list val -> list val -> val;
+  q_eq : key -> bool;                  (* false for `no_eq` functions: never backdated *)
   q_in : rev -> ikey -> val;
   q_stamp : rev -> ikey -> rev
 }.
@@ -46,7 +49,8 @@ Inductive phase2 :=
 | QWait
 | QClaimed
 | QVerify (rest : list key) (ok : bool)     (* ok: no walked edge was "changed" so far *)
-| QExec (rest : list key) (acc : list val)  (* acc: the values the callees returned so far *)
+| QExec (rest : list key) (acc : list val) (mc : rev)
+    (* acc: the values the callees returned so far; mc: the largest changed_at they carried *)
 | QRelease (v : val) (c : rev)
 | QUnblock (v : val) (c : rev).
 
@@ -87,7 +91,7 @@ Definition deliver (mm : key -> option memo2) (v : val) (c : rev) (below : list 
     | QVerify l ok =>
       let unchanged := match mm (g_key f) with Some m => c <=? n_ver m | None => false end in
       mkF2 (g_key f) (QVerify l (ok && unchanged)) :: b
-    | QExec l acc => mkF2 (g_key f) (QExec l (acc ++ [v])) :: b
+    | QExec l acc mc => mkF2 (g_key f) (QExec l (acc ++ [v]) (N.max mc c)) :: b
     | _ => f :: b
     end
   end.
@@ -113,6 +117,11 @@ Variable Q : prog2.
 Definition inputs_unchanged (cur : rev) (k : key) (since : rev) : bool :=
   forallb (fun i => q_stamp Q cur i <=? since) (q_ins Q k).
 
+(* the largest stamp among the inputs the function reads (ActiveQuery accumulates changed_at
+   as the maximum over everything read, starting from Revision::start) *)
+Definition stamp_max (cur : rev) (k : key) : rev :=
+  fold_right N.max REV_START (map (q_stamp Q cur) (q_ins Q k)).
+
 Definition step_frame2 (s : cstate2) (t : thread) (ts : tstate2) (k : key) (ph : phase2)
   (below : list frame2) (c : bool) : option upd2 :=
   let pr := c2_proto s in
@@ -121,7 +130,7 @@ Definition step_frame2 (s : cstate2) (t : thread) (ts : tstate2) (k : key) (ph :
   let keep stack := mkU2 pr mm stack (th2_todo ts) false [] in
   let top ph' := mkF2 k ph' :: below in
   let ret mm' v ch := mkU2 pr mm' (deliver mm' v ch below) (th2_todo ts) false [ERet t k cur v] in
-  let exec := mkU2 pr mm (top (QExec (q_deps Q k) [])) (th2_todo ts) false [EExec t k cur] in
+  let exec := mkU2 pr mm (top (QExec (q_deps Q k) [] REV_START)) (th2_todo ts) false [EExec t k cur] in
   match ph with
   | QStart =>
     match mm k with
@@ -155,8 +164,9 @@ Definition step_frame2 (s : cstate2) (t : thread) (ts : tstate2) (k : key) (ph :
     | None => Some exec
     end
   | QVerify (d :: rest) ok =>
-    if ok then Some (keep (mkF2 d QStart :: top (QVerify rest ok)))
-    else Some exec                         (* an edge was "changed": stop walking, execute *)
+    if ok && c then Some (keep (mkF2 d QStart :: top (QVerify rest ok)))
+    else Some exec     (* an edge (or, [c = false], an input read before [d]) was "changed":
+                          stop walking, execute *)
   | QVerify [] ok =>
     match mm k with
     | Some m =>
@@ -166,12 +176,13 @@ Definition step_frame2 (s : cstate2) (t : thread) (ts : tstate2) (k : key) (ph :
       else Some exec
     | None => Some exec
     end
-  | QExec (d :: rest) acc => Some (keep (mkF2 d QStart :: top (QExec rest acc)))
-  | QExec [] acc =>                                                          (* insert_memo *)
+  | QExec (d :: rest) acc mc => Some (keep (mkF2 d QStart :: top (QExec rest acc mc)))
+  | QExec [] acc mc =>                                                       (* insert_memo *)
     let nv := q_body Q k (map (q_in Q cur) (q_ins Q k)) acc in
+    let ch0 := N.max mc (stamp_max cur k) in      (* changed_at = max over everything read *)
     let ch := match mm k with
-              | Some mo => if n_val mo =? nv then n_chg mo else cur          (* backdate *)
-              | None => cur
+              | Some mo => if q_eq Q k && (n_val mo =? nv) then n_chg mo else ch0   (* backdate *)
+              | None => ch0
               end in
     Some (mkU2 pr (updN mm k (Some (mkM2 cur nv ch (q_deps Q k))))
                (top (QRelease nv ch)) (th2_todo ts) false [])
@@ -243,7 +254,7 @@ Definition absp (ph : phase2) : phase :=
   match ph with
   | QStart => PStart | QCold => PCold | QWait => PWait | QClaimed => PClaimed
   | QVerify l _ => PVerify l
-  | QExec l _ => PExec l
+  | QExec l _ _ => PExec l
   | QRelease v _ => PRelease v
   | QUnblock v _ => PUnblock v
   end.
